@@ -112,6 +112,17 @@ C06_WsOnlyIfAvailable == ~WsAvailable => \A s \in Sid : ~g.ss[s].upged /\ ~g.ss[
 C07_NoFalseTimeout ==
     [][\A s \in Sid : (g.cause[s] # "pingto" /\ g'.cause[s] = "pingto") =>
             (g.ss[s].lp # None /\ now - g.ss[s].lp > PingTimeout)]_vars
+\* a PING enters the queue exactly when a ping task wakes, PingInterval after it was armed
+\* (by the OPEN or by a PONG): the number of PING packets only grows in a step in which a
+\* sleeping ping task whose wake time is now disappears
+NPing(q) == Len(SelectSeq(q, LAMBDA x : x = "PING"))
+C07_PingCadence ==
+    [][\A s \in Sid : NPing(g'.ss[s].q) > NPing(g.ss[s].q) =>
+           \E i \in 1..Len(psleep) : psleep[i].s = s /\ psleep[i].wake = now
+                                      /\ Len(psleep') = Len(psleep) - 1]_vars
+\* ping tasks sleep exactly PingInterval
+C07_PingOnlyWhenArmed ==
+    \A i \in 1..Len(psleep) : psleep[i].wake - now <= PingInterval /\ psleep[i].wake >= now - 0
 \* with the monitor on, an expired session is closed within the bound
 C07_DetectionBound ==
     (Monitor /\ Quiescent) =>
@@ -136,5 +147,7 @@ C16_TableOnlyUsed == \A s \in g.table : g.ss[s].used
 C16_ReapedInTime ==
     (Monitor /\ Quiescent) =>
         \A s \in g.table : g.ss[s].closed => now - g.endt[s] <= 2 * PingTimeout
+\* a rejected session is never addressable
+C16_DeadNotInTable == \A s \in g.rejd : s \notin g.table
 C16_DataIsolated == \A s \in Sid : ~g.ss[s].used => g.ss[s].ud = 0
 =============================================================================
